@@ -60,10 +60,19 @@ struct Rng {
   int below(int n) { return int(next() % uint64_t(n)); }
 };
 
+inline int size_profile() {
+  uint64_t k = mix(sim().seed ^ 0x5eedc0ffeeULL) % 10;
+  return k < 6 ? 0 : (k < 8 ? 1 : 2);
+}
+
 // ---------------------------------------------------------------- event data model
 static const double DV[12] = {-2.5, -1.0, 0.0, 0.0, 0.5, 1.0, 1.0, 2.0, 3.5, 10.0, 31.0, 45.25};
 static const int IV[6] = {0, 1, 2, 3, -1, 1};
-static const int SIZES[8] = {0, 0, 1, 1, 2, 3, 3, 4};
+// collection sizes: three profiles chosen per run from the event seed (swarm: most runs as before, some with mostly
+// empty collections, some with collections long enough to outgrow small buffers and first allocations)
+static const int SIZES_P[3][8] = {{0, 0, 1, 1, 2, 3, 3, 4}, {0, 0, 0, 0, 0, 1, 1, 2}, {0, 1, 2, 3, 5, 6, 9, 17}};
+
+inline const int* sizes();
 
 struct Elem {
   double d[5] = {0, 0, 0, 0, 0};
@@ -119,6 +128,8 @@ template <int K> struct ElemT : Elem {
   }
 };
 
+inline const int* sizes() { return SIZES_P[size_profile()]; }
+
 // ATLAS containers hold pointers (DataVector-like): iterating yields `const E*`
 template <class E> class PtrColl {
   std::vector<E> store_;
@@ -126,7 +137,7 @@ template <class E> class PtrColl {
  public:
   typedef E element;
   void build(Rng& r) {
-    int n = SIZES[r.below(8)];
+    int n = sizes()[r.below(8)];
     store_.resize(n);
     for (auto& e : store_) e.fill(r);
     ptrs_.clear();
@@ -143,7 +154,7 @@ template <class E> class ValColl : public std::vector<E> {
  public:
   typedef E element;
   void build(Rng& r) {
-    int n = SIZES[r.below(8)];
+    int n = sizes()[r.below(8)];
     this->resize(n);
     for (auto& e : *this) e.fill(r);
   }
